@@ -61,6 +61,8 @@ H = [
  ('H41', BA, [('        if self.comparator(other, self.expected):\n            return None\n        return _BinaryMismatch(other, self.mismatch_string, self.expected)', '        if not self.comparator(other, self.expected):\n            return _BinaryMismatch(other, self.mismatch_string, self.expected)\n        return None')], 'BinaryComparison inverted'),
  ('H42', BA, [('        if isinstance(other, self.types):\n            return None\n        return NotAnInstance(other, self.types)', '        if not isinstance(other, self.types):\n            return NotAnInstance(other, self.types)')], 'IsInstance inverted falls off'),
  ('H43', IM, [('        if description is not None:\n            self._description = description', '        if description is None:\n            pass\n        else:\n            self._description = description')], 'Mismatch init inverted'),
+ ('H44', EX, [('        expected_type = type(self.expected)\n        self._is_instance = not any(\n            issubclass(expected_type, class_type) for class_type in (type, tuple)\n        )\n', '        self._is_instance = not isinstance(self.expected, (type, tuple))\n')], 'MatchesException.__init__: isinstance(expected, (type, tuple)) for the issubclass test over type(expected)'),
+ ('H45', EX, [('        expected_type = type(self.expected)\n        self._is_instance = not any(\n            issubclass(expected_type, class_type) for class_type in (type, tuple)\n        )\n', '        kind = type(exception)\n        self._is_instance = not (issubclass(kind, type) or issubclass(kind, tuple))\n')], 'MatchesException.__init__: the two issubclass tests written out'),
 ]
 M = [
  ('M01', HO, [('            if mismatch is None:\n                return None\n            results.append(mismatch)', '            if not mismatch:\n                return None\n            results.append(mismatch)')], 'MatchesAny: `is None` -> truthiness'),
@@ -99,6 +101,8 @@ M = [
  ('M34', DS, [('        for matcher, value in zip(self.matchers, values):\n            mismatch = matcher.match(value)', '        for matcher, value in zip(self.matchers, values):\n            mismatch = matcher.match(values)')], 'MatchesListwise: every matcher gets the whole sequence'),
  ('M36', DI, [('        common_keys = set(expected.keys()) & set(observed.keys())', '        common_keys = set(expected) & set(observed)')], '_MatchCommonKeys: set(d) for set(d.keys()): a list / str matchee no longer raises (found by the correspondence run)'),
  ('M35', EX, [('        if not issubclass(other[0], expected_class):', '        if not isinstance(other[1], expected_class):')], 'MatchesException: class test replaced by an instance test'),
+ ('M37', EX, [('        expected_type = type(self.expected)\n        self._is_instance = not any(\n            issubclass(expected_type, class_type) for class_type in (type, tuple)\n        )\n', '        self._is_instance = type(self.expected) not in (type, tuple)\n')], 'MatchesException.__init__: exact type instead of the subclass test (seed C06-g: classes with a metaclass, named tuples)'),
+ ('M38', EX, [('            value_re = AfterPreprocessing(str, MatchesRegex(value_re), False)', '            value_re = MatchesRegex(value_re)')], 'MatchesException.__init__: the regex applied to the exception itself, not to its str()'),
 ]
 
 # behaviour-preserving, but deliberately NOT tolerated by the recogniser (the data changes, the tie alarms without a failing input)
